@@ -63,21 +63,39 @@ def idOf (d : DefEntry) : Id :=
   | .category _ => ⟨.category, d.name⟩
   | _ => ⟨.unit, d.name⟩
 
+/-- the extra key a base unit with a long name is stored under -/
+def longKey (d : DefEntry) : Option Id :=
+  match d.defn with
+  | .baseUnit (some long) => some ⟨.unit, long⟩
+  | _ => none
+
+/-- the doc string of an entry, keyed by its id -/
+def docKey (d : DefEntry) : Option (Id × String) := d.doc.map fun doc => (idOf d, doc)
+
+/-- the category of an entry (recorded for the unit namespace only) -/
+def catKey (d : DefEntry) : Option (Id × String) :=
+  match d.category with
+  | some c => if (idOf d).ns == .unit then some (idOf d, c) else none
+  | none => none
+
+def insOpt {α} (k : Option Id) (v : α) (l : List (Id × α)) : List (Id × α) :=
+  match k with
+  | some k => (smInsert k v l).1
+  | none => l
+
+def insOptP {α} (kv : Option (Id × α)) (l : List (Id × α)) : List (Id × α) :=
+  match kv with
+  | some (k, v) => (smInsert k v l).1
+  | none => l
+
 /-- one iteration of the first loop of `load_defs` -/
 def addEntry (st : Input) (d : DefEntry) : Input :=
-  let input0 := match d.defn with
-    | .baseUnit (some long) => (smInsert ⟨.unit, long⟩ d.defn st.input).1
-    | _ => st.input
-  let id := idOf d
-  let docs := match d.doc with
-    | some doc => (smInsert id doc st.docs).1
-    | none => st.docs
-  let categories := match d.category with
-    | some c => if id.ns == .unit then (smInsert id c st.categories).1 else st.categories
-    | none => st.categories
-  let (input1, existed) := smInsert id d.defn input0
-  let errors := if existed && id.ns != .category then st.errors ++ ["multiple:" ++ id.tag] else st.errors
-  { input := input1, unmarked := ssInsert id st.unmarked, docs := docs, categories := categories, errors := errors }
+  let r := smInsert (idOf d) d.defn (insOpt (longKey d) d.defn st.input)
+  { input := r.1
+    unmarked := ssInsert (idOf d) st.unmarked
+    docs := insOptP (docKey d) st.docs
+    categories := insOptP (catKey d) st.categories
+    errors := if r.2 && (idOf d).ns != .category then st.errors ++ ["multiple:" ++ (idOf d).tag] else st.errors }
 
 def buildInput (defs : List DefEntry) : Input := defs.foldl addEntry {}
 
@@ -219,7 +237,10 @@ def LS.toRegistry (st : LS) : Registry :=
     unitList := []
     category := fun _ => none
     categoryName := fun _ => none
-    substance := fun n => st.substances[n]? }
+    substance := fun n => st.substances[n]?
+    isFormula := fun n =>
+      (Formula.molarMass (fun sym => (st.symbols[sym]?).bind fun full => (st.substances[full]?).bind fun s =>
+        match s.get "molar_mass" with | .ok v => (if v.unit == Formula.molarMassUnit then some 0 else none) | _ => none) n).isSome }
 
 /-- `eval_prefix` (after the fix: a zero divisor or `0^negative` is an error) -/
 def evalPrefix (prefixes : Std.HashMap String Numeric) : Expr → Except String Numeric
@@ -230,6 +251,7 @@ def evalPrefix (prefixes : Std.HashMap String Numeric) : Expr → Except String 
   | .binop .frac l r => do
     let a ← evalPrefix prefixes l
     let b ← evalPrefix prefixes r
+    if b == .rational 0 then .error "Division by zero" else
     match Numeric.div a b with
     | .ok v => .ok v
     | _ => .error "Division by zero"
@@ -348,7 +370,7 @@ def symbolMass (st : LS) (sym : String) : Option Rat :=
     match st.substances[n]? with
     | none => none
     | some s => match s.get "molar_mass" with
-      | .ok ⟨.rational q, _⟩ => some q
+      | .ok ⟨.rational q, u⟩ => if u == Formula.molarMassUnit then some q else none
       | _ => none
 
 /-- a unit definition whose value is a substance (`Value::Substance`): a substance or element
